@@ -254,3 +254,38 @@ def writes_committed(ctx, rid, only_fns=None, only_effects=None):
             if not held:
                 run.finding(Finding(rid, fid, "%s is written to a batch that can be dropped without commit() before Ok is returned (the write is lost)" % t["f"].split("::")[-1], site=c.site_of(f, b)))
     return n
+
+
+def refresh_transitions(ctx, rid):
+    """apply_api_outputs moves an output to Unspent exactly when the node still reports it and to Spent / Reverted
+    exactly when it does not, and saves the record afterwards."""
+    run = ctx.run
+    UPD = c.LW + "internal::updater::"
+    OD = c.LW + "types::OutputData"
+    ap = ctx.fn(UPD + "apply_api_outputs")
+    if not ap:
+        return
+    mr = cfg.find_calls(ap, OD + "::mark_reverted")
+    ms = cfg.find_calls(ap, OD + "::mark_spent")
+    mu = cfg.find_calls(ap, OD + "::mark_unspent")
+    if len(mr) != 1 or len(ms) != 1 or len(mu) != 1:
+        run.error("%s: expected exactly one mark_reverted / mark_spent / mark_unspent call in apply_api_outputs" % rid)
+        return
+    g_api = None
+    api_p = c.param(ap, "api_outputs", "(alloc::string::String, u64, u64)")
+    for b, t in ap.calls():
+        if "HashMap::" in (t.get("f") or "") and (t.get("f") or "").endswith("::get"):
+            if any(x[0] == "arg" and x[1] == api_p for x in vf.producers(ap, t["a"][0])):
+                g_api = cfg.call_guard(ap, b)
+    held = g_api is not None and bool(g_api.ok) and bool(g_api.fail)
+    if held:
+        held = cfg.must_pass(ap, g_api.ok, {mu[0][0]})[0] and cfg.must_pass(ap, g_api.fail, {ms[0][0], mr[0][0]})[0]
+        # and on each edge one of the transitions is always taken before the record is saved
+        sv = {b for b, _t in cfg.find_calls(ap, c.WOB + "save")}
+        for edges, marks in ((g_api.ok, {mu[0][0]}), (g_api.fail, {ms[0][0], mr[0][0]})):
+            par = cfg.reach(ap, starts=[d for (_s, d) in edges], cut_nodes=marks | cfg.error_return_blocks(ap))
+            if any(b in par for b in sv):
+                held = False
+    run.instance(rid, {"fn": "apply_api_outputs", "obligation": "reported by the node => mark_unspent; absent => mark_spent or mark_reverted; then saved"}, held=held)
+    if not held:
+        run.finding(Finding(rid, ap.id, "refresh does not move outputs to Unspent / Spent according to the node's answer", site=ap.loc()))
